@@ -134,8 +134,11 @@ def fold_not(e):
 def check_walker_paths(ctx, ws):
     prog = ctx.prog
     alias = prog.registered_checks().get('rule')
+    from ..dte import inline_helpers
     for w in ws:
-        t = Table(prog, w)
+        t = Table(prog, w, inline=inline_helpers(
+            prog, modules={POLICY}, exclude={x.qual for x in ws}),
+            max_depth=4)
         p_check = w.params[1]
         F = ctx.where(w.module, w.node).split(':')[0]
         is_cycle = len(w.params) > 2
@@ -284,8 +287,16 @@ def check_walker_paths(ctx, ws):
                     c.expr, a) and not isinstance(t.expand(c.expr),
                                                   ast.Compare)
                     for c in p.conds)
-                walked = any(c.kind == 'loop' and reads_attr(c.expr, a)
-                             for c in p.conds)
+                # walked: a child drawn from .<a> was handed to the walker
+                walked = False
+                for ev in p.events:
+                    if ev.kind == 'call' and ev.node.args and \
+                            prog.callee_of(prog.functions.get(
+                                ev.frame, w), ev.node) is w:
+                        a0 = ev.node.args[0]
+                        src = elem_of(a0)
+                        if reads_attr(src if src is not None else a0, a):
+                            walked = True
                 if present and not walked and blind is None:
                     blind = (p, q.rsplit('.', 1)[-1], a)
         ctx.ob('C13.EXHAUSTIVE', blind is None,
@@ -398,7 +409,9 @@ def check_walker_paths(ctx, ws):
 
 def check_aggregate(ctx, cr, ws):
     prog = ctx.prog
-    t = Table(prog, cr)
+    from ..dte import inline_helpers
+    t = Table(prog, cr, inline=inline_helpers(
+        prog, modules={POLICY}, exclude={x.qual for x in ws}), max_depth=4)
     W = ctx.where(cr.module, cr.node)
     und = [w for w in ws if len(w.params) == 2]
     cyc = [w for w in ws if len(w.params) > 2]
@@ -460,7 +473,9 @@ def check_aggregate(ctx, cr, ws):
 def check_validator(ctx):
     prog = ctx.prog
     f = prog.func(GEN + '._validate_policy')
-    t = Table(prog, f)
+    from ..dte import inline_helpers
+    t = Table(prog, f, inline=inline_helpers(prog, modules={GEN},
+                                             classes=False), max_depth=4)
     W = ctx.where(f.module, f.node)
 
     def find(pred):
@@ -491,8 +506,9 @@ def check_validator(ctx):
     probs = {
         'missing policy file': lambda s: '_informed_no_policy_file' in s,
         'invalid rules': lambda s: 'check_rules()' in s,
-        'unknown rule name': lambda s: 'registered_rules.get(' in s
-        and 'is None' in s,
+        'unknown rule name': lambda s: ('registered_rules.get(' in s
+                                        and 'is None' in s) or (
+            ' in ' in s and s.endswith('.registered_rules')),
         'unparseable rule': lambda s: "== '!'" in s and '.rules[' in s
         and s.startswith('str('),
     }
@@ -514,7 +530,7 @@ def check_validator(ctx):
                 fired.append('missing policy file')
             if probs['invalid rules'](s) and not c.pol:
                 fired.append('invalid rules')
-            if probs['unknown rule name'](s) and c.pol:
+            if probs['unknown rule name'](s) and c.pol == ('is None' in s):
                 fired.append('unknown rule name')
         # unparseable needs both conjuncts
         a = [c for c in p.conds if c.kind == 'test' and probs[
